@@ -347,7 +347,7 @@ void sess_run_dhist(const Plan* p, ZSTD_DCtx* dctx, const uint8_t* wire, size_t 
 
 /* ---------------- oracles ---------------- */
 void sess_check_lib_roundtrip(const uint8_t* wire, size_t wire_size, const uint8_t* expect, size_t expect_size, const uint8_t* dict, size_t dict_size, int dict_raw, int magicless) {
-    ZSTD_DCtx* d = ZSTD_createDCtx_advanced(sess_cmem()); uint8_t* out = (uint8_t*)sim_buf_new(expect_size); size_t r; const char* e;
+    ZSTD_DCtx* d = ZSTD_createDCtx();   /* oracle context: default allocator, never subject to injected faults */ uint8_t* out = (uint8_t*)sim_buf_new(expect_size); size_t r; const char* e;
     if (!d) { sim_buf_free(out); return; }
     if (magicless) ZSTD_DCtx_setParameter(d, ZSTD_d_format, ZSTD_f_zstd1_magicless);
     ZSTD_DCtx_setParameter(d, ZSTD_d_windowLogMax, 31);
